@@ -67,7 +67,7 @@ def make_cases(rng, tier):
     for k in range(24 if tier == "quick" else 120):
         reqs.append(("GET", "/" + urllib.parse.quote(TREE[k % 2]))); hows.append("cancelled")
     cases = []
-    for mode in ("dir", "none", "file"):
+    for mode in ("dir", "none", "file", "filelink"):
         acts = []
         for (m, t), how in zip(reqs, hows):
             if how == "cancelled":
@@ -75,16 +75,17 @@ def make_cases(rng, tier):
             else:
                 acts.append({"a": "raw", "req": H("%s %s HTTP/1.1\r\nHost: h.example\r\nConnection: close\r\nContent-Length: 0\r\n\r\n" % (m, t)),
                              "quiet_ms": 15, "halfclose": how == "halfclose"})
-        cfg = {"fdir": mode, "tree": tree if mode != "none" else [], "outside": outside}
-        if mode == "file":
+        cfg = {"fdir": "file" if mode == "filelink" else mode, "tree": tree if mode != "none" else [], "outside": outside}
+        if mode in ("file", "filelink"):
             cfg["single"] = "a.txt"
+            cfg["single_symlink"] = mode == "filelink"     # -serve-files-from names the file through a symbolic link
         cases.append({"i": len(cases), "cfg": cfg, "acts": acts, "_reqs": reqs, "_mode": mode})
     return cases, tags
 
 
 def terms(case, res, tags):
     out, inputs = [], []
-    mode = {"dir": "FDir", "none": "FNone", "file": "FSingle"}[case["_mode"]]
+    mode = {"dir": "FDir", "none": "FNone", "file": "FSingle", "filelink": "FSingle"}[case["_mode"]]
     for (m, t), a in zip(case["_reqs"], res.get("acts") or []):
         ep, dp = decode_path(t)
         body = bytes.fromhex(a.get("body", "") or "") + bytes.fromhex(a.get("resp", "") or "")
@@ -93,7 +94,7 @@ def terms(case, res, tags):
             if tg.encode() in body:
                 if where == "out":
                     canary = True
-                elif case["_mode"] == "file" and p == "/a.txt":
+                elif case["_mode"] in ("file", "filelink") and p == "/a.txt":
                     single = True
                 else:
                     served = "(Some %s)" % vlib.coq_str(p.encode())
@@ -178,6 +179,22 @@ def check(run):
                "clients and with an already-cancelled request context; non-trivial = a file was served, a "
                "shell path, or a path that is not already clean", [allinputs[0], allinputs[len(TREE) + 1]], {"tags": dist, "files_served": served})
     concurrent_downloads(run, binp)
+    # the last hop: "File requested" notices reach the TERMINAL also while the operator has muted shell output (Ctrl+O)
+    import c19
+    okm, mbin, mlog = vlib.build_overlay_test(run.rundir, "lib/opshell")
+    if okm:
+        evs = [c19.with_tail([{"t": 0, "ev": "o"}, {"t": 10 + g, "ev": "s"}, {"t": 11 + g, "ev": "s"}, {"t": 12 + g, "ev": "p"}, {"t": 13 + g, "ev": "s"}]) for g in (0, 500, 1999)]
+        mc = [{"i": k, "events": e} for k, e in enumerate(evs)]
+        rc3, out3, mres = c19.run_cases(run, mbin, mc, "mutedreports")
+        if rc3 == 0 and len(mres) == len(mc) and not any(r.get("fail") for r in mres):
+            vlib.judge_stream(run, "mutedreports", c19.IMPORTS, "case", mc, mres, c19.term,
+                              {1: "a 'File requested' report (a status line) was not written to the terminal while shell output was muted with Ctrl+O", 10: "mute model differs"}, (),
+                              "file requests reported while the operator has muted shell output: the reports (status lines) are written to the terminal by the "
+                              "real Shell all the same (virtual time, pty child)", key_fn=lambda c: json.dumps(c["events"]))
+        else:
+            run.oblige("muted reports: harness ran under a pty", False, "rc=%s %s" % (rc3, out3[-600:].decode(errors="replace")))
+    else:
+        run.oblige("opshell harness builds against /repo", False, mlog)
     # the model of path.Clean against the real library
     if ok2:
         frs = [b"..", b".", b"", b"a", b"sub", b"..a", b"a..", b"...", b"%2e%2e", b"\x00", b" ", b"\\", b"x" * 300]
